@@ -12,11 +12,11 @@ def run(tier, seed):
     r = tlc.require_ok(tlc.run("Wrappers", workers=1, tag="c14"), "Wrappers")
     if r.status != "ok":
         raise tlc.TLCError("Wrappers violates %s" % r.violated)
-    ctx.add_tlc("Wrappers: OrderIndependentWithNames BatchEqualsRowwise OneHot (shape x batch size x feature_names x key order; "
-                "river label histories)", r, kind="case_enumeration")
+    ctx.add_tlc("Wrappers: OrderIndependentWithNames BatchEqualsRowwise OneHot Stateless (shape x batch size x feature_names x key order; "
+                "river label histories; call sequences on one wrapper object)", r, kind="case_enumeration")
     ctx.exhaustive = True
     recs = r.json_prints()
-    na = nr = 0
+    na = nr = ns = 0
     seen = set()
     for rec in recs:
         key = str(rec)
@@ -31,6 +31,14 @@ def run(tier, seed):
                         ctx.violation(clause, "%s shape=%s batch=%s" % (kind, rec["shape"], "dict" if rec["batch"] == 0 else "list"), detail,
                                       {"case": rec, "wrapper": kind, "dtype": dtype})
             ctx.nontrivial(("W", rec["shape"], rec["batch"], str(rec["names"]), str(rec["keyorder"])))
+        elif rec["mode"] == "array_seq":
+            if len(rec["calls"]) < 2 or (quick and (hash(key) % 7)):
+                continue
+            for kind in ("sklearn", "torch"):
+                ns += 1
+                for (clause, detail) in WC.seq_case(rec, kind):
+                    ctx.violation(clause, "%s names=%s" % (kind, rec["names"]), detail, {"case": rec, "wrapper": kind})
+            ctx.nontrivial(("S", str(rec["names"]), str(rec["calls"])))
         else:
             nr += 1
             for (clause, detail) in WC.river_case(rec):
@@ -42,12 +50,13 @@ def run(tier, seed):
     probs, nd = WC.dispatch_cases(not quick)
     for (clause, detail) in probs:
         ctx.violation(clause, detail.split(" ->")[0], detail, None)
-    ctx.traces += na + nr + nd
-    ctx.evaluations += na + nr + nd
+    ctx.traces += na + nr + nd + ns
+    ctx.evaluations += na + nr + nd + ns
     ctx.count_clause("wrapper.*", na + nr)
+    ctx.count_clause("wrapper.stateless_canonical_form", ns)
     ctx.count_clause("dispatch.*", nd)
     ctx.add_stage("each TLC state as implementation test (SklearnWrapper and TorchWrapper stubs; RiverWrapper label histories); "
-                  "dispatch over sklearn estimators, river models, torch modules", "replay", array_cases=na, river_cases=nr, dispatch=nd)
+                  "dispatch over sklearn estimators, river models, torch modules", "replay", array_cases=na, river_cases=nr, call_sequences_on_one_wrapper=ns, dispatch=nd)
     ctx.sample({"array_case": next(x for x in recs if x["mode"] == "array" and x["batch"] == 2 and x["shape"] == "n_one")})
     ctx.sample({"river_case": next(x for x in recs if x["mode"] == "river" and len(x["labels"]) == 3)})
     ctx.assume("model classes of the installed sklearn / river / torch versions; stub prediction functions return arrays of the "
